@@ -5,6 +5,8 @@
 package c06
 
 import (
+	"github.com/teleport-network/teleport/x/xibc/core/host"
+	"crypto/sha256"
 	"encoding/json"
 	"fmt"
 	"sort"
@@ -58,8 +60,36 @@ func baseWorld(tss bool) *relay.Sys {
 	s.Run("recv A>B#1 g1", "recv A>C#1 g1")
 	s.Run(round...)
 	s.Run(round...)
+	// packets the counterparties committed without teleport's endpoint contract (a counterparty may run other software):
+	// one whose callback on A reverts outright and one for a destination A has no client for; both end in an error
+	// acknowledgement written by the message server itself
+	for _, ch := range []string{"B", "C"} {
+		cp := s.World().Chains[long[ch]]
+		s.World().Do(cp, func(ctx sdk.Context) {
+			for _, kind := range []string{"reverts"} { // (a packet for a third chain is refused by ValidatePacket: the "dstChain not found" branch is unreachable)
+				p, bz := rawPacket(cp.Name, kind)
+				h := sha256.Sum256(bz)
+				cp.App.XIBCKeeper.PacketKeeper.SetPacketCommitment(ctx, p.SrcChain, p.DstChain, p.Sequence, h[:])
+			}
+		})
+	}
+	s.Run(round...)
+	s.Run(round...)
 	s.Run("upd B A", "upd C A") // B and C are ahead of A's clients again: an update message is valid
 	return s
+}
+
+// rawPacket is a packet of the given kind from chain src to A.
+func rawPacket(src, kind string) (packettypes.Packet, []byte) {
+	p := packettypes.Packet{SrcChain: src, DstChain: relay.A, Sequence: 50, Sender: "0x00000000000000000000000000000000000000aa", CallData: []byte{1, 2, 3}}
+	if kind == "unknown-destination" {
+		p = packettypes.Packet{SrcChain: src, DstChain: "ghost-chain", Sequence: 1, Sender: "0x00000000000000000000000000000000000000aa", CallData: []byte{1, 2, 3}}
+	}
+	bz, err := p.ABIPack()
+	if err != nil {
+		panic(err)
+	}
+	return p, bz
 }
 
 type p1case struct {
@@ -69,6 +99,7 @@ type p1case struct {
 	Kind     string // upd | recv | ack
 	Chain    string // B | C
 	TSS      bool
+	Packet   string // recv only: "" (an ordinary transfer) | "reverts" | "unknown-destination"
 }
 
 func (c p1case) String() string {
@@ -76,7 +107,7 @@ func (c p1case) String() string {
 	for _, n := range []string{"r1", "r2", "u2"} {
 		rs = append(rs, fmt.Sprintf("%s:%v", n, []string(c.Registry[n])))
 	}
-	return fmt.Sprintf("registry{%s}%s signer=%s msg=%s(%s) tssClientForB=%v", strings.Join(rs, " "), c.Rereg, c.Signer, c.Kind, c.Chain, c.TSS)
+	return fmt.Sprintf("registry{%s}%s signer=%s msg=%s(%s%s) tssClientForB=%v", strings.Join(rs, " "), c.Rereg, c.Signer, c.Kind, c.Chain, map[string]string{"": "", "reverts": ", callback reverts", "unknown-destination": ", unknown destination"}[c.Packet], c.TSS)
 }
 
 func register(c *world.Chain, ctx sdk.Context, relayer string, chains regEntry) {
@@ -155,13 +186,19 @@ func Part1(r *ev.Run, tier string) (evals, nontrivial int64) {
 			for _, signer := range signers {
 				for _, kind := range []string{"upd", "recv", "ack"} {
 					for _, ch := range []string{"B", "C"} {
-						c := p1case{Registry: rc.reg, Rereg: rc.note, Signer: signer, Kind: kind, Chain: ch, TSS: tss}
-						evals++
-						if one(r, w, c) {
-							nontrivial++
+						pkts := []string{""}
+						if kind == "recv" {
+							pkts = append(pkts, "reverts")
 						}
-						if evals%397 == 1 {
-							r.Sample(c.String())
+						for _, pk := range pkts {
+							c := p1case{Registry: rc.reg, Rereg: rc.note, Signer: signer, Kind: kind, Chain: ch, TSS: tss, Packet: pk}
+							evals++
+							if one(r, w, c) {
+								nontrivial++
+							}
+							if evals%397 == 1 {
+								r.Sample(c.String())
+							}
 						}
 					}
 				}
@@ -193,8 +230,17 @@ func one(r *ev.Run, w0 *relay.Sys, c p1case) bool {
 			msg = world.MsgUpdate(a0, cp, 0, signer)
 		}
 	case "recv":
-		m, _ := w.GenuineRecv(c.Chain+">A#1", c.Signer)
-		msg = m
+		if c.Packet == "" {
+			m, _ := w.GenuineRecv(c.Chain+">A#1", c.Signer)
+			msg = m
+		} else {
+			p, bz := rawPacket(cp.Name, c.Packet)
+			proof, ph := []byte("tss"), clienttypes.NewHeight(0, uint64(cp.Height()))
+			if !tssHere {
+				proof, ph, _ = cp.QueryProof(host.PacketCommitmentKey(p.SrcChain, p.DstChain, p.Sequence), int64(a0.ClientLatest(cp.Name).RevisionHeight))
+			}
+			msg = packettypes.NewMsgRecvPacket(bz, proof, ph, signer.Acc)
+		}
 	case "ack":
 		m, _ := w.GenuineAck("A>"+c.Chain+"#1", c.Signer)
 		msg = m
@@ -235,6 +281,9 @@ func one(r *ev.Run, w0 *relay.Sys, c p1case) bool {
 			var ack packettypes.Acknowledgement
 			if ack.ABIDecode(raw) == nil && ack.Relayer == want {
 				ok = true
+				if c.Packet != "" {
+					r.Outcome(fmt.Sprintf("recv (%s): acknowledgement code=%d %q names the registered address", c.Packet, ack.Code, ack.Message))
+				}
 			}
 		}
 		if !ok {
